@@ -137,7 +137,8 @@ def factorial_spec(levels, reps, seed=0, catkinds=None, numerics=("x", "z", "w")
 # ---- random (non-factorial) frames -------------------------------------------------------------
 @st.composite
 def random_frame(draw, cat_vars=("f", "g", "h"), num_vars=("x", "z"), int_vars=("k",), min_rows=4, max_rows=40,
-                 max_levels=4, with_index=True, extra_unused=True):
+                 max_levels=4, with_index=True, extra_unused=True, pos_vars=(), num_styles=("general", "general", "ties", "offset", "smallint"),
+                 min_levels=2):
     """Arbitrary frame: unequal level counts, every declared level of a variable occurs at least once,
     str / Categorical / ordered Categorical columns, optional exotic index, optional unused columns."""
     n = draw(st.integers(max(min_rows, max_levels + 1), max_rows))
@@ -145,7 +146,7 @@ def random_frame(draw, cat_vars=("f", "g", "h"), num_vars=("x", "z"), int_vars=(
     spots = sorted(range(n), key=lambda i: ((i + 1) * (seed + 3) * PHI) % 1.0)  # distinct row positions
     cols = []
     for name in cat_vars:
-        nl = draw(st.integers(2, max_levels))
+        nl = draw(st.integers(min_levels, max_levels))
         lv = level_names(name, nl)
         codes = draw(st.lists(st.integers(0, nl - 1), min_size=n, max_size=n))
         for i in range(nl):  # make every level occur (unequal counts stay)
@@ -167,7 +168,7 @@ def random_frame(draw, cat_vars=("f", "g", "h"), num_vars=("x", "z"), int_vars=(
             codes[spots[-1 - i]] = i + 1
         cols.append({"name": name, "kind": "int", "values": codes})
     for j, name in enumerate(num_vars):
-        style = draw(st.sampled_from(["general", "general", "ties", "offset", "smallint"]))
+        style = draw(st.sampled_from(list(num_styles)))
         v = weyl(n, j, seed)
         if style == "ties":
             v = np.round(v * 2) / 2
@@ -176,6 +177,8 @@ def random_frame(draw, cat_vars=("f", "g", "h"), num_vars=("x", "z"), int_vars=(
         elif style == "smallint":
             v = np.round(v * 3)
         cols.append({"name": name, "kind": "float", "values": [round(float(t), 6) for t in v]})
+    for j, name in enumerate(pos_vars):
+        cols.append({"name": name, "kind": "float", "values": [round(float(t), 6) for t in weyl(n, 3 + j, seed, 0.5, 6.0)]})
     cols.append({"name": "y", "kind": "float", "values": [round(float(t), 6) for t in weyl(n, 5, seed + 1, -3, 3)]})
     if extra_unused and draw(st.booleans()):
         cols.append({"name": "unused_num", "kind": "float", "values": [float(i) for i in range(n)]})
